@@ -463,3 +463,47 @@ def controls_fire() -> List[str]:
     if sh is None or not any(not ok for _, _, ok in stale_index_deletes(sh)):
         dead.append("stale_index_deletes")
     return dead
+
+
+# ----------------------------------------------------------------------------- constructor hygiene
+_ABSTRACT_MAPPING = ("typing.Mapping", "typing.MutableMapping", "collections.abc.Mapping", "collections.abc.MutableMapping", "Mapping", "MutableMapping", "abc.Mapping")
+
+
+def narrow_mapping_tests(p: Program, fn: FuncInfo) -> List[Tuple[ast.AST, str]]:
+    """isinstance(<param>, dict|OrderedDict|...) on a parameter whose annotation admits any Mapping: a Mapping that is not
+    a dict (MappingProxyType, ChainMap, the package's own Headers / MultiMapping) takes the wrong branch.
+    Returns (node, description)."""
+    out = []
+    ann = {}
+    a = fn.node.args
+    for x in a.posonlyargs + a.args + a.kwonlyargs:
+        if x.annotation is not None:
+            ann[x.arg] = ast.unparse(x.annotation)
+    for n in ast.walk(fn.node):
+        if isinstance(n, ast.Call) and isinstance(n.func, ast.Name) and n.func.id == "isinstance" and len(n.args) == 2 and isinstance(n.args[0], ast.Name) and n.args[0].id in ann:
+            if "Mapping" not in ann[n.args[0].id]:
+                continue
+            types = n.args[1].elts if isinstance(n.args[1], ast.Tuple) else [n.args[1]]
+            names = [ast.unparse(t) for t in types]
+            concrete = [t for t in names if t.split(".")[-1] in ("dict", "OrderedDict", "defaultdict", "UserDict")]
+            if concrete and not any(t in _ABSTRACT_MAPPING or t.endswith(".Mapping") for t in names):
+                out.append((n, f"isinstance({n.args[0].id}, {', '.join(names)}) although `{n.args[0].id}` is annotated as any Mapping"))
+    return out
+
+
+def ctor_aliases(fn: FuncInfo) -> List[Tuple[ast.AST, str]]:
+    """Stores `self.X = <param>.Y` (or a bare container parameter attribute chain) in a constructor: the new object shares
+    mutable state with its argument."""
+    out = []
+    params = set(fn.params[1:])
+    for n in ast.walk(fn.node):
+        if isinstance(n, (ast.Assign, ast.AnnAssign)):
+            val = n.value
+            tg = n.targets if isinstance(n, ast.Assign) else [n.target]
+            if val is None:
+                continue
+            for t in tg:
+                if isinstance(t, ast.Attribute) and isinstance(t.value, ast.Name) and t.value.id == "self":
+                    if isinstance(val, ast.Attribute) and isinstance(val.value, ast.Name) and val.value.id in params and val.attr.startswith("_"):
+                        out.append((n, f"self.{t.attr} = {ast.unparse(val)}"))
+    return out
